@@ -116,7 +116,9 @@ class Site:
         return "%s:%s" % (self.body.file, self.line)
 
     def key(self):
-        return "%s|%s|%s" % (self.body.path, self.kind, self.what)
+        # logos numbers its generated state functions; the number is not a stable identity
+        path = re.sub(r"goto\d+_(ctx\d+_)?x", "goto_", self.body.path)
+        return "%s|%s|%s" % (path, self.kind, self.what)
 
     def __repr__(self):
         return "<Site %s %s %s @%s>" % (self.body.path, self.kind, self.what, self.line)
@@ -275,6 +277,11 @@ def _interval(e, env, depth):
         return ty_range(e[3])
     if k == "field":
         base = e[1]
+        # Some(i) returned by a search over a str/slice: i < len <= isize::MAX
+        if base[0] == "downcast" and base[2] == "Some" and e[2] == "0":
+            inner = _unwrap_var(base[1])
+            if inner[0] == "call" and inner[1] and re.search(r"(<impl str>::(find|rfind)|::Iterator::position|::iter::Iterator>::position)$", strip_generics(inner[1])):
+                return (0, 2**63 - 2)
         # field 0 of a checked arithmetic tuple: the assert on field 1 dominates every use
         if base[0] == "bin" and base[1].endswith("WithOverflow") and e[2] == "0":
             return _arith(base[1][: -len("WithOverflow")], base, env, d)
@@ -308,6 +315,12 @@ def _interval(e, env, depth):
             if xi is not None and (tr is None or (xi[0] >= tr[0] and xi[1] <= tr[1])):
                 return xi
             return tr
+        if callee.endswith("::unwrap_or") and len(args) == 2:
+            a0 = _unwrap_var(args[0])
+            if a0[0] == "call" and (a0[1] or "").endswith("::checked_ilog10"):
+                d0 = interval(args[1], env, d)
+                if d0:
+                    return (min(0, d0[0]), max(38, d0[1]))
         if callee.endswith("::len") or callee.endswith("::count") or callee.endswith("::count_lines"):
             return (0, 2**63 - 1)
         if callee.endswith("::min") and len(args) == 2:
@@ -541,6 +554,9 @@ def _cond_from(discr, val, excluded, dty):
                         out.append((x, xi[0] + 1, None))
                     elif xi is not None and xi[1] == yi[0]:
                         out.append((x, None, xi[1] - 1))
+        else:
+            # a plain boolean (field, variable, call result)
+            out.append((d, int(truth), int(truth)))
         return out
     if val is not None:
         return [(discr, val, val)]
